@@ -87,8 +87,9 @@ func pickSigningKey(r *core.RNG, pool *Pool, s *Swarm) int {
 
 // ---- document content
 
-var keyIDs = []string{"k1", "k2", "k3", "signing-key_4", "K-5"}
-var svcIDs = []string{"s1", "s2", "hub_3", "S-4"}
+// (keys and services have separate id spaces: "didcomm" names a key and a service)
+var keyIDs = []string{"k1", "k2", "k3", "signing-key_4", "K-5", "didcomm"}
+var svcIDs = []string{"s1", "s2", "hub_3", "S-4", "didcomm"}
 var akaURIs = []string{"https://example.com/a", "did:web:example.org", "urn:uuid:1234", "https://xn--bcher-kva.example/päth", "mailto:a@b.example",
 	// different strings that a URL normaliser would identify with an entry above (the set semantics are on strings)
 	"HTTPS://example.com/a", "https://example.com/a#", "https://xn--bcher-kva.example/p%C3%A4th", "https://example.com/a?",
@@ -339,6 +340,9 @@ func genValue(r *core.RNG) any {
 	case 2:
 		return true
 	case 3:
+		if rk := r.Stream("astral-keys"); rk.Chance(1, 3) {
+			return map[string]any{"k": "v", "\U0001F600": jsonInt(r.Intn(9)), "\uFB33": true}
+		}
 		return map[string]any{"k": "v", "n": jsonInt(r.Intn(9))}
 	case 4:
 		return []any{"a", jsonInt(1), map[string]any{"z": nil}}
@@ -370,7 +374,8 @@ func genOrigin(r *core.RNG) (any, bool) {
 	case 2:
 		return jsonInt(r.Intn(100000)), true
 	case 3:
-		return map[string]any{"node": "n1", "€": "euro", "\U0001F600": jsonInt(1), "list": []any{jsonInt(1), "two"}}, true
+		// (member names whose UTF-16 order differs from their code point order: an astral character against U+E000..U+FFFF)
+		return map[string]any{"node": "n1", "€": "euro", "\U0001F600": jsonInt(1), "\uFB33": jsonInt(2), "\uE000x": "pua", "list": []any{jsonInt(1), "two"}}, true
 	case 4:
 		return "origin-" + fmt.Sprint(r.Intn(5)), true
 	default:
